@@ -599,6 +599,9 @@ def harnesses(tier):
     hs.append(Harness("single.integer_x0", h_integer_x0, max_paths=20))
     hs.append(Harness("single.time.1x1.n2", h_single, {"m": 1, "d": 1, "n": 2, "coef": "time"}, max_paths=2000))
     hs.append(Harness("coupled.time.n2", h_coupled, {"m": 1, "n": 2, "coef": "time"}, max_paths=2000))
+    if not q:
+        hs.append(Harness("single.time.2x2.n3", h_single, {"m": 2, "d": 2, "n": 3, "coef": "time"}, max_paths=2000))
+        hs.append(Harness("coupled.time.n3", h_coupled, {"m": 1, "n": 3, "coef": "time"}, max_paths=2000))
     hs.append(Harness("single.affine.2x1.n2", h_single, {"m": 2, "d": 1, "n": 2, "coef": "affine"}, max_paths=2000))
     for coef in ("constant", "affine", "diag"):
         for n in ((1, 2) if q else (1, 2, 3)):
